@@ -65,6 +65,8 @@ func main() {
 		printResult(res)
 	case "check":
 		os.Exit(cmdCheck(os.Args[2:]))
+	case "replay":
+		os.Exit(cmdReplay(os.Args[2:]))
 	default:
 		fmt.Println("unknown command")
 		os.Exit(2)
